@@ -40,6 +40,17 @@ class Gath:
         self.dt = dt
 
 
+def mask_root(m):
+    return getattr(m, "root", m)
+
+
+def axis_mask(m1, shape, k):
+    r = LArr("b", shape, lambda ix, st2, m1=m1, k=k: m1.get([ix[k]], st2), None, "axis-mask")
+    r.root = mask_root(m1)
+    r.axis = k
+    return r
+
+
 def is_arr(v):
     return isinstance(v, (SArr, LArr))
 
@@ -107,6 +118,11 @@ class GatherMixin:
     def e_BinOp(self, n, st):
         a = self.eval(n.left, st)
         b = self.eval(n.right, st)
+        if isinstance(a, SData) or isinstance(b, SData):
+            a = a.arr if isinstance(a, SData) else a
+            b = b.arr if isinstance(b, SData) else b
+            r = self.e_BinOp(ast.BinOp(left=_Lit(a), op=n.op, right=_Lit(b), lineno=n.lineno, col_offset=0), st)
+            return SData(r) if is_arr(r) else r
         if isinstance(a, Gath) or isinstance(b, Gath):
             return self.gath_op(BINOPS[type(n.op)], a, b, st, n)
         if (is_arr(a) or is_arr(b)) and not (isinstance(a, tuple) or isinstance(b, tuple)):
@@ -117,6 +133,11 @@ class GatherMixin:
         if len(n.ops) == 1 and not isinstance(n.ops[0], (ast.In, ast.NotIn, ast.Is, ast.IsNot)):
             a = self.eval(n.left, st)
             b = self.eval(n.comparators[0], st)
+            if isinstance(a, SData) or isinstance(b, SData):
+                a = a.arr if isinstance(a, SData) else a
+                b = b.arr if isinstance(b, SData) else b
+                r = self.e_Compare(ast.Compare(left=_Lit(a), ops=n.ops, comparators=[_Lit(b)], lineno=n.lineno, col_offset=0), st)
+                return SData(r) if is_arr(r) else r
             if isinstance(a, Gath) or isinstance(b, Gath):
                 return self.gath_op(CMPOPS[type(n.ops[0])], a, b, st, n)
             if (is_arr(a) or is_arr(b)) and not (isinstance(a, tuple) or isinstance(b, tuple)):
@@ -182,8 +203,21 @@ class GatherMixin:
                 m1 = LArr("b", [shape[k]], lambda ix, st2: False, None, "empty")
             elif isinstance(i, SList) and not i.items:
                 m1 = LArr("b", [shape[k]], lambda ix, st2: False, None, "empty")
+            elif isinstance(i, Gath) and i.dt == "i" and len(i.mask.shape) == 1:
+                # a[:, J] with J an index array gathered from a 1-D selection: only J(x) == x (positions select themselves)
+                x = z3.Int(fresh_name("gx"))
+                g = zi(to_int(i.val([x], st)))
+                sv = z3.Solver()
+                sv.set("timeout", 2000)
+                sv.add(list(st.pc) + [zb(as_bool(i.mask.get([x], st))), x >= 0, x < zi(i.mask.shape[0]), g != x])
+                if sv.check() != z3.unsat:
+                    raise Unsupported("store through a computed index array that is not the identity on its selection (line %d)" % n.lineno)
+                if not self.spec:
+                    self.emit(st, "bounds", "L%d.axis%d" % (n.lineno, k), simp_bool(zi(i.mask.shape[0]) <= zi(shape[k])), n,
+                              "selected positions lie inside axis %d" % k)
+                m1 = i.mask
             if m1 is not None:
-                return LArr("b", shape, lambda ix, st2, m1=m1, k=k: m1.get([ix[k]], st2), None, "axis-mask")
+                return axis_mask(m1, shape, k)
         return None
 
     def e_Subscript(self, n, st):
@@ -194,6 +228,9 @@ class GatherMixin:
                 return WhereComp(base, k if k >= 0 else len(base) + k)
         if is_arr(base):
             idx = self.index_list(n.slice, st)
+            gi = [k for k, i in enumerate(idx) if isinstance(i, Gath)]
+            if gi:
+                return self.index_gather(base, idx, gi, st, n)
             if any(isinstance(i, (WhereIdx, WhereComp)) or (isinstance(i, LArr) and i.dt == "b")
                    or (isinstance(i, tuple) and len(i) == 1 and isinstance(i[0], (WhereComp, SList))) or
                    (isinstance(i, SList) and not i.items) for i in idx):
@@ -210,6 +247,133 @@ class GatherMixin:
                     out.append(elem(base, [self.norm_index(getattr(base, "name", "a"), x, shape_of(base)[0], st, n)], st))
                 return SList(out, arr_dt(base))
         return super().e_Subscript(ast.Subscript(value=_Lit(base), slice=n.slice, ctx=n.ctx, lineno=n.lineno, col_offset=0), st)
+
+    def e_Attribute(self, n, st):
+        base = self.eval(n.value, st)
+        if isinstance(base, WhereIdx) and n.attr == "mask":
+            return base.mask
+        if isinstance(base, WhereComp) and n.attr == "mask":
+            return base.w.mask
+        if isinstance(base, Gath):
+            return SFunc(name="gather." + n.attr, handler=("method", base))
+        return super().e_Attribute(ast.Attribute(value=_Lit(base), attr=n.attr, ctx=n.ctx, lineno=n.lineno, col_offset=0), st)
+
+    def b_xarray_align(self, args, kw, st, n):
+        """xr.align(a, b): inner join on the coordinate labels; identity when both carry the same labels -- ASSUMED here
+        (the objects come from the same image grid); the shapes must agree (obligation)"""
+        out = []
+        for a in args:
+            out.append(a)
+        if not self.spec and len(args) == 2:
+            sa, sb = shape_of(args[0].arr if isinstance(args[0], SData) else args[0]), shape_of(args[1].arr if isinstance(args[1], SData) else args[1])
+            if len(sa) != len(sb):
+                raise Unsupported("xr.align of different ranks (line %d)" % n.lineno)
+            self.emit(st, "pre@call", "align.L%d" % n.lineno, band(*[simp_bool(zi(x) == zi(y)) for x, y in zip(sa, sb)]), n,
+                      "xr.align operands have the same shape (same grid)")
+        return tuple(out)
+
+    def b_xarray_where(self, args, kw, st, n):
+        a = [x.arr if isinstance(x, SData) else x for x in args]
+        r = self.b_numpy_where(a, kw, st, n)
+        return SData(r) if is_arr(r) else r
+
+    def index_gather(self, base, idx, gi, st, n):
+        """src[:, J] / src[J]: J an integer index array gathered from a 1-D selection m (J(x) defined where m(x)).
+        Result: gather over the index space of src with axis k replaced by the selection's space: value src[.., J(x), ..]"""
+        shape = list(shape_of(base))
+        if len(gi) != 1 or len(idx) != len(shape):
+            raise Unsupported("index-array form (line %d)" % n.lineno)
+        k = gi[0]
+        J = idx[k]
+        if J.dt != "i" or len(J.mask.shape) != 1:
+            raise Unsupported("index array must be a 1-D integer gather (line %d)" % n.lineno)
+        for kk, i in enumerate(idx):
+            if kk != k and not (isinstance(i, tuple) and i and isinstance(i[0], str) and i[0] == "slice" and i[1] is None and i[2] is None):
+                raise Unsupported("index-array form: other axes must be full slices (line %d)" % n.lineno)
+        src = frozen(base, st) if isinstance(base, SArr) else base
+        if not self.spec:
+            x = z3.Int(fresh_name("jx"))
+            g = zi(to_int(J.val([x], st)))
+            self.emit(st, "bounds", "L%d.take" % n.lineno,
+                      z3.ForAll([x], z3.Implies(z3.And(x >= 0, x < zi(J.mask.shape[0]), zb(as_bool(J.mask.get([x], st)))),
+                                                z3.And(g >= 0, g < zi(shape[k])))), n,
+                      "every selected index is inside axis %d of the indexed array" % k)
+        out_shape = shape[:k] + [J.mask.shape[0]] + shape[k + 1:]
+        m = axis_mask(J.mask, out_shape, k)
+
+        def val(ix, st2, src=src, J=J, k=k):
+            full = list(ix)
+            full[k] = zi(to_int(J.val([ix[k]], st2)))
+            return elem(src, full, st2)
+        return Gath(m, val, arr_dt(base))
+
+    def m_astype(self, recv, args, kw, st, n):
+        if isinstance(recv, SData):
+            r = self.m_astype(recv.arr, args, kw, st, n)
+            return SData(r, recv.dims, recv.name) if is_arr(r) else r
+        if isinstance(recv, Gath):
+            dt = args[0] if args else kw.get("dtype")
+            from .npmodel import dtype_code
+            code = dtype_code(dt)
+
+            if code.startswith("u") and recv.dt in ("i", "b"):
+                # integers converted to an unsigned type and used in integer arithmetic afterwards: value modulo 2**w, kept in Z
+                w = int(code[1:])
+
+                def val(ix, st2, recv=recv, w=w):
+                    v = recv.val(ix, st2)
+                    v = to_int(v)
+                    if z3.is_expr(v) and z3.is_app(v) and v.decl().kind() == z3.Z3_OP_ITE and all(
+                            z3.is_int_value(c) and 0 <= c.as_long() < 2 ** w for c in v.children()[1:]):
+                        return v   # already in range
+                    return v % (2 ** w)
+                return Gath(recv.mask, val, "i")
+
+            def val(ix, st2, recv=recv, code=code):
+                v = recv.val(ix, st2)
+                return coerce_scalar(to_int(v) if is_boolv(v) else v, code) if code != "f" else fl.F(_num(v))
+            return Gath(recv.mask, val, code)
+        if isinstance(recv, SList) and recv.items and not any(is_arr(x) for x in recv.items):
+            dt = args[0] if args else kw.get("dtype")
+            from .npmodel import dtype_code
+            code = dtype_code(dt)
+            if code == "i":
+                out = []
+                for x in recv.items:
+                    if is_float(x):
+                        # name the truncation once: the Real->Int conversion then occurs in a single defining equation
+                        d = fresh_int("trunc")
+                        st.assume(d == fl.trunc_int(fl.F(x)))
+                        out.append(d)
+                    else:
+                        out.append(to_int(x))
+                return SList(out, "i")
+        return super().m_astype(recv, args, kw, st, n)
+
+    def provable(self, cond, st, ms=2000):
+        c = simp_bool(cond)
+        if isinstance(c, bool):
+            return c
+        sv = z3.Solver()
+        sv.set("timeout", ms)
+        sv.add(list(st.pc) + [z3.Not(c)])
+        return sv.check() == z3.unsat
+
+    def b_numpy_setdiff1d(self, args, kw, st, n):
+        """np.setdiff1d(np.arange(n), np.where(m)) for a 1-D mask m over range(n): the positions where m does not hold"""
+        a, w = args
+        if isinstance(w, tuple) and len(w) == 1:
+            w = w[0]
+        if isinstance(w, WhereComp):
+            w = w.w
+        if not (isinstance(a, LArr) and getattr(a, "arange", None) and isinstance(w, WhereIdx) and len(w.mask.shape) == 1):
+            raise Unsupported("np.setdiff1d form (line %d)" % n.lineno)
+        lo, hi, step = a.arange
+        if not (isinstance(lo, int) and lo == 0 and step == 1 and self.provable(zi(hi) == zi(w.mask.shape[0]), st)):
+            raise Unsupported("np.setdiff1d: first operand must be np.arange(len(mask)) (line %d)" % n.lineno)
+        m = w.mask
+        notm = LArr("b", m.shape, lambda ix, st2, m=m: bnot(as_bool(m.get(ix, st2))), None, "not-selected")
+        return Gath(notm, lambda ix, st2: zi(ix[0]), "i")
 
     # ------------------------------------------------------------ scatters
     def scatter(self, arr, mask, valfn, st, node):
@@ -286,6 +450,37 @@ class GatherMixin:
         t = s.target
         if isinstance(t, ast.Subscript):
             base = self.eval(t.value, st)
+            if isinstance(base, SDs):
+                # ds["v"] op= array : the DataArray is updated in place (same buffer), element by element
+                k = self.eval(t.slice, st)
+                tgt = base.vars.get(k) if isinstance(k, str) else None
+                rhs = self.eval(s.value, st)
+                rhs = rhs.arr if isinstance(rhs, SData) else rhs
+                if tgt is not None and isinstance(tgt.arr, SArr) and (is_arr(rhs) or is_int(rhs) or is_float(rhs)):
+                    arr = tgt.arr
+                    if is_arr(rhs):
+                        if len(shape_of(rhs)) != len(shape_of(arr)):
+                            raise Unsupported("dataset variable op= with broadcasting (line %d)" % s.lineno)
+                        if not self.spec:
+                            self.emit(st, "shape", "L%d" % s.lineno, band(*[simp_bool(zi(a) == zi(b)) for a, b in zip(shape_of(arr), shape_of(rhs))]),
+                                      s, "operands of the in-place update have the same shape")
+                        rhs = frozen(rhs, st) if isinstance(rhs, SArr) else rhs
+                    op = BINOPS[type(s.op)]
+                    full = LArr("b", shape_of(arr), lambda ix, st2: True, None, "all")
+
+                    def val(ix, st2, old, rhs=rhs, op=op):
+                        cur = array_read(st2, old, ix)
+                        r = elem(rhs, ix, st2) if is_arr(rhs) else rhs
+                        if is_boolv(r):
+                            r = to_int(r)
+                        if old.dt.startswith("u"):
+                            r = coerce_scalar(r, old.dt)
+                        elif old.dt == "i" and is_bv(r):
+                            r = z3.BV2Int(r)
+                        return arith(op, cur, r, None, None)
+                    self.scatter(arr, full, val, st, t)
+                    return [(st, "normal", None)]
+                raise Unsupported("augassign into a dataset variable of this form (line %d)" % s.lineno)
             if isinstance(base, SArr):
                 idx = self.index_list(t.slice, st)
                 if any(not is_int(i) and not (isinstance(i, tuple) and i and i[0] == "slice") for i in idx):
@@ -295,6 +490,8 @@ class GatherMixin:
                         op = BINOPS[type(s.op)]
                         if is_arr(rhs):
                             raise Unsupported("masked op= with an array operand (line %d)" % s.lineno)
+                        if isinstance(rhs, Gath) and not _same_selection(rhs.mask, m):
+                            raise Unsupported("masked op= with a gather over another selection (line %d)" % s.lineno)
                         spec = self.spec
 
                         def val(ix, st2, old, rhs=rhs, op=op):
@@ -473,4 +670,4 @@ class GatherMixin:
 
 
 def _same_selection(m1, m2):
-    return m1 is m2
+    return m1 is m2 or mask_root(m1) is mask_root(m2)
